@@ -4,7 +4,7 @@ from ._core_common import *  # noqa
 PROP = "C02"
 SCHEDULERS = ("eager", "rr")
 OPTS = dict(p_mbefore=0.5, multi=True, mgroup=True, p_single_group=0.3, alias=True, combiner=True, fsm=True, nested_methods=True, p_fresh=0.96, p_conflict=0.6, p_mconflict=0.8, n_mconflict=2, p_tm_conflict=0.4, mprio=True, min_tr=3, p_group=0.8)
-BOUNDS = {"quick": "40 batches x 12 random designs rich in add_conflict relations (t-t, m-m, t-m; all priorities), both schedulers", "thorough": "400 batches x 25 designs"}
+BOUNDS = {"quick": "fixed relation family (61 designs: cross-module add_conflict in same-position alternatives of If/Switch/FSM, prioritised method conflicts lifted over an exclusive caller pair, bodies with two ready-dependency sources) + 40 batches x 12 random designs rich in add_conflict relations (t-t, m-m, t-m; all priorities), both schedulers", "thorough": "400 batches x 25 designs"}
 OUTSIDE = OUTSIDE_COMMON
 ASSUMES = ASSUMES_COMMON
 
